@@ -10,7 +10,9 @@ RULE = ('generated modules in ctrl mode: nested block/loop/if/else with and with
         'enclosing label of matching type with 0-2 extra operands below the carried value, return at depth, unreachable, '
         'valid stack-polymorphic dead code after unconditional branches (operators popping from the polymorphic stack, nested '
         'blocks with their own branches), counter-bounded loops with early exits, select/drop/nop, 0-12 extra locals of mixed '
-        'types read before written, local.tee; env.trace(i32) host calls and global.set mark the executed path. Oracle = '
+        'types read before written, local.tee; recursive functions (self / mutual, the call last in the body, in front of return, at '
+        'the end of an arm or block, or not in tail position) whose declared locals are read at entry and non-zero at the call: '
+        'every activation starts with zeroed locals; env.trace(i32) host calls and global.set mark the executed path. Oracle = '
         'return value or trap AND the ordered host-call trace of the reference interpreter. Non-trivial = the executed path '
         'contains a value-carrying branch across >=1 enclosing label or with extra operands below the value, a br_table whose '
         'index is out of range (default), a not-taken if without else, a loop back-edge, a local read before any write, a '
@@ -54,7 +56,7 @@ def nontrivial(m, script, model, meta):
 @f1.maker('c03_ctrl')
 def make_ctrl(ch, params):
     nf = 4 + ch.below(params.get('nfuncs', 20))
-    m, info = gen.general_module(ch, FEAT, nfuncs=nf, with_trace=True, nglobals=ch.below(5))
+    m, info = gen.general_module(ch, FEAT, nfuncs=nf, with_trace=True, nglobals=ch.below(5), recursion='locals')
     script = e2e.default_setup(m, 1) + gen.call_script(ch, m, params.get('nargs', 10))
     return m, script, {'nontrivial_fn': nontrivial, 'ninst': 1, 'info': info}
 
